@@ -142,7 +142,8 @@ impl Ctx {
             ParseError::ExtraToken { .. } => "ExtraToken",
             ParseError::User { .. } => "User",
         };
-        let text = format!("{kind}:{:?}", e.dropped_tokens);
+        // the whole recovered error (variant, token, locations, `expected`) and the dropped tokens
+        let text = format!("{kind}:{:?}:{:?}", e.error, e.dropped_tokens);
         let mut h = 0x51u64;
         for b in text.bytes() {
             h = mix(h, b as u64);
